@@ -1,7 +1,8 @@
-(* Helpers for the C16 correspondence files written by the harness: outcome codes, printable JSON. *)
-From Coq Require Import ZArith QArith Qcanon String List.
+(* Helpers for the C16 correspondence files written by the harness: outcome codes, document fingerprints, printable JSON. *)
+From Coq Require Import ZArith QArith Qcanon String Ascii List.
 Require Import PV.Num PV.Json PV.Workspace.
 Import ListNotations.
+Local Open Scope Z_scope.
 
 Inductive ojson := ONull | OBool (b : bool) | ONum (n : Z) (d : positive) | OStr (s : string)
                  | OArr (l : list ojson) | OObj (m : list (string * ojson)).
@@ -16,13 +17,33 @@ Definition err_code (e : err) : Z :=
   match e with
   | InvalidWorkspaceOperation => 1 | InvalidSpecification => 2 | SchemaNotFound => 3
   | PyValueError => 4 | PyTypeError => 5 | PyIndexError => 6
-  end%Z.
+  end.
 
-(* (model outcome code, 1 iff both succeeded with the same document) *)
-Definition chk (m : result workspace) (impl : option json) : Z * Z :=
+(* fingerprint of the token stream of a document (the harness computes the same function over pyhf's output).
+   Arithmetic is folded with 2^89-1 by mask-and-shift, which is cheap on binary integers. *)
+Definition K89 : Z := 89.
+Definition M89 : Z := 618970019642690137449562111.
+Definition red (x : Z) : Z := Z.land x M89 + Z.shiftr x K89.
+Definition tok (h t : Z) : Z := red (red (red (h * 1000003 + t))).
+Fixpoint str_num (s : string) (acc : Z) : Z :=
+  match s with EmptyString => acc | String c r => str_num r (acc * 256 + Z.of_N (N_of_ascii c)) end.
+Definition fp_str (s : string) (h : Z) : Z := tok (tok h (Z.of_nat (String.length s))) (str_num s 0).
+Definition znat (z : Z) : Z := if z <? 0 then 2 * (- z) + 1 else 2 * z.
+Fixpoint fp (j : json) (h : Z) : Z :=
+  match j with
+  | JNull => tok h 1
+  | JBool b => tok h (if b then 3 else 2)
+  | JNum _ v => tok (tok (tok h 4) (znat (Qnum v))) (Zpos (Qden v))
+  | JStr s => fp_str s (tok h 5)
+  | JArr l => fold_left (fun h x => fp x h) l (tok (tok h 6) (Z.of_nat (length l)))
+  | JObj m => fold_left (fun h kv => fp (snd kv) (fp_str (fst kv) h)) m (tok (tok h 7) (Z.of_nat (length m)))
+  end.
+
+(* (model outcome code, fingerprint of the canonical document) *)
+Definition chk (m : result workspace) : Z * Z :=
   match m with
-  | Ok w => (0, match impl with Some j => if jsame (json_of_ws w) j then 1 else 0 | None => 0 end)%Z
-  | Err e => (err_code e, 0%Z)
+  | Ok w => (0, fp (canon (json_of_ws w)) 7)
+  | Err e => (err_code e, 0)
   end.
 Definition show (m : result workspace) : ojson :=
   match m with Ok w => out_json (json_of_ws w) | Err e => ONum (err_code e) 1 end.
